@@ -2,8 +2,10 @@
 implementation's real SSA graph (with the implementation's own dominator tree
 as an untrusted certificate) for every generated definition; an independent
 Python path walk (bounded loop unrolling) is the violation-search oracle."""
+import json
 import os
 import common
+import proggen
 import propeng
 import sexp
 import ssacanon
@@ -211,7 +213,7 @@ def run(ctx, proofs):
         if tag != "ok":
             continue
         x = sexp.parse(o)
-        propeng.features_of(x[1], features)
+        propeng.features_of(x[1], features, None, proggen.PRIMES[progs[i][0]], progs[i][1])
         mlines.append("ssa %s %s" % (sexp.show(x[1]), sexp.show(x[4])))
         mkeys.append((i, x[2]))
         lines.append("ssacheck %s %s" % (sexp.show(x[2]), sexp.show(x[3])))
@@ -231,6 +233,15 @@ def run(ctx, proofs):
             failing.append({"input": progs[i][1], "impl": "SSA graph: " + sexp.show(x[2])[:1500], "spec": probs[0], "all": probs[:5]})
     outs = common.run_lines(M, [], lines, shards=common.NPROC, timeout=1200) if lines else []
     invalid = [progs[i][1] for i, o in zip(keys, outs) if o != "(valid)"]
+    invalid_answers = sorted(set(o for o in outs if o != "(valid)"))
+    # fourth audit: mutated REAL dumps that SsaCheck.ssa_check alone accepted although they violate the text of C14
+    # (corpus/C14/rejected/*.json, made from the reviewer's scripts): the driver must reject each, and accept its
+    # unmutated original (so that a change of the dump format cannot turn the witnesses into trivially rejected lines)
+    wdir = os.path.join(common.VERIF, "corpus", "C14", "rejected")
+    wit = [json.load(open(os.path.join(wdir, f))) for f in sorted(os.listdir(wdir)) if f.endswith(".json")] if os.path.isdir(wdir) else []
+    wouts = common.run_lines(M, [], [w["original"] for w in wit] + [w["line"] for w in wit], timeout=600) if wit else []
+    wit_bad = [{"witness": w["id"], "mutation": w["mutation"], "original_answer": a, "mutant_answer": b}
+               for w, a, b in zip(wit, wouts[:len(wit)], wouts[len(wit):]) if a != "(valid)" or b == "(valid)" or b == "(badline)"]
     # the Coq erasure validator SsaErase.erase_check on the real graphs before and after conversion
     eouts = common.run_lines(M, [], elines, shards=common.NPROC, timeout=1200) if elines else []
     for i, o in zip(keys, eouts):
@@ -258,7 +269,7 @@ def run(ctx, proofs):
         if invalid:
             ctx.violation("the verified validator SsaCheck.ssa_check rejects the implementation's SSA graph (%d definitions); the path walk "
                           "found no disagreeing read" % len(invalid),
-                          {"broken": "validation of the implementation's SSA output by SsaCheck.ssa_check", "first": invalid[0]}, no_input=True)
+                          {"broken": "validation of the implementation's SSA output by SsaCheck.ssa_check", "first": invalid[0], "answers": invalid_answers}, no_input=True)
         elif disagreements:
             ctx.violation("correspondence Model.Ssa.into_ssa vs Cfg::into_ssa broken (%d definitions); the SSA graphs themselves passed the "
                           "validator and the path walk" % len(disagreements),
@@ -269,6 +280,10 @@ def run(ctx, proofs):
         elif proofs["failures"]:
             ctx.violation("proof obligations of C14 no longer check: " + "; ".join(proofs["failures"])[:400],
                           {"broken": "props/C14.v", "failures": proofs["failures"]}, no_input=True)
+    if wit_bad:
+        ctx.violation("the validator (ssa_check + unversioned_reads_ok + SsaStrict.ssa_strict) accepts a mutated graph that violates C14, or rejects "
+                      "its unmutated original (%d of %d witnesses of corpus/C14/rejected)" % (len(wit_bad), len(wit)),
+                      {"broken": "strength of the validator on the rejected-graph corpus", "first": wit_bad[0]}, no_input=True)
     need = [f for f in propeng.FEATURES if f not in ("dimension_with_value_claim_on_a_non_literal", "lookalike_pair_one_constant_one_not")]
     missing = [f for f in need if not features.get(f)]
     if missing:
@@ -293,6 +308,8 @@ def run(ctx, proofs):
         "implementation_status": status,
         "graphs_validated": len(outs),
         "graphs_rejected_by_validator": len(invalid),
+        "mutated_real_graphs_that_must_be_rejected": len(wit),
+        "mutated_real_graphs_wrongly_accepted": len(wit_bad),
         "graphs_meeting_the_hypotheses_of_the_construction_theorems": sum(1 for o in houts if o == "(pre-ssa-ok)"),
         "graphs_accepted_by_erase_check": sum(1 for o in eouts if o == "(erasure)"),
         "construction_mirror_compared": len(mouts),
@@ -303,7 +320,10 @@ def run(ctx, proofs):
         # proof round 4: the third audit's open statement (the construction gives a version to every read of a local; every
         # version is listed by a re-issued Declaration statement) is closed: C14_construction_reads_of_locals_versioned,
         # C14_construction_unversioned_reads_ok, C14_construction_versions_stmt_declared (Proofs.SsaUnvConstruction)
-        "open_statements": ["none as a Coq statement: that the output of the construction is an erasure of its input with phis at block heads, unique definitions "
+        "open_statements": ["OPEN (fourth audit): `into_ssa frontier children c = SOk c' -> ssa_strict c' idom = StrictOk` for the construction MIRROR (every phi argument is the exit "
+                            "version of a predecessor, a fresh update base is defined nowhere, the table is the statements plus parameter versions) is not proved; Model.SsaStrict.ssa_strict is "
+                            "evaluated on every REAL SSA graph (driver command ssacheck) and its meaning on paths is proved (C14_phi_arguments_arrive, C14_read_defined_or_fresh_on_every_path)",
+                            "apart from that, none as a Coq statement: that the output of the construction is an erasure of its input with phis at block heads, unique definitions "
                             "and unmixed keys (C14_construction_*) AND that every read names the running version on every path from the entry (the dominance "
                             "half, Cytron et al.'s theorem for this renaming scheme: C14_construction_paths_ok, C14_construction_read_defined_on_every_path) "
                             "are proved for ALL graphs, and C14_construction_paths_ok_on_computed_tables discharges the dominance hypotheses for the tables "
@@ -329,7 +349,7 @@ def replay(ctx, rep):
         print("replay names a broken obligation:", rep.get("broken"))
         return 1
     H = common.build_harness("ir")
-    out = common.run_lines(H, [], ["BN254 0 0 %s" % rep["input"].encode().hex()])[0]
+    out = common.run_lines(H, [], ["BN254 0 0 %s" % propeng.wire(rep["input"])])[0]
     x = sexp.parse(out)
     if x[0] != "ok":
         print(out[:300])
